@@ -17,9 +17,17 @@ EXTENDS Naturals, Sequences, FiniteSets, TLC, Json
 Keys == {"dev", "mnt", "cdi", "ulim"}
 KV(k, v) == [k |-> k, v |-> v]
 
+\* the sixteen rlimit types the adjuster knows; the payloads UallL / UallP / UallM name all of them in lower case,
+\* with the RLIMIT_ prefix in upper case, and with a mixed-case prefix - the result is always RLIMIT_<UPPER>
+RTypes == <<"AS", "CORE", "CPU", "DATA", "FSIZE", "LOCKS", "MEMLOCK", "MSGQUEUE", "NICE", "NOFILE", "NPROC", "RSS",
+            "RTPRIO", "RTTIME", "SIGPENDING", "STACK">>
+AllTypes == [i \in 1..16 |-> [k |-> "RLIMIT_" \o RTypes[i], v |-> ToString(i) \o ":" \o ToString(i)]]
+
 \* meaning of a payload id: [ok, items]
 Payload(id) ==
-  CASE id = "D1" -> [ok |-> TRUE, items |-> <<KV("/dev/d1", "c|1|3")>>]
+  CASE id \in {"UallL", "UallP", "UallM"} -> [ok |-> TRUE, items |-> AllTypes]
+    [] id \in {"Utype3", "Utype4", "Utype5", "Utype6", "Utype7", "Utype8"} -> [ok |-> FALSE, items |-> <<>>]
+    [] id = "D1" -> [ok |-> TRUE, items |-> <<KV("/dev/d1", "c|1|3")>>]
     [] id = "D2" -> [ok |-> TRUE, items |-> <<KV("/dev/d2", "b|8|0|420|1|2"), KV("/dev/d3", "c|4|5")>>]
     [] id = "D3" -> [ok |-> TRUE, items |-> <<KV("/dev/d4", "c|10|200|-|7")>>]
     [] id = "D4" -> [ok |-> TRUE, items |-> <<KV("/dev/d5", "c|1|5")>>]
@@ -87,6 +95,10 @@ Combined ==
   {[ctr |-> n, anns |-> UNION {{Ann(k, sk[k], IF sk[k] = "ctr" THEN n ELSE "", Good(k)[1])} : k \in Keys}] :
      n \in Names, sk \in [Keys -> {"ctr", "pod", "bare"}]}
   \cup {[ctr |-> "c1", anns |-> {Ann("ulim", "ctr", "c1", "Uempty")}], [ctr |-> "c1", anns |-> {}]}
+  \* every rlimit type in every spelling; names that are almost valid
+  \cup {[ctr |-> "c1", anns |-> {Ann("ulim", "ctr", "c1", u)} \cup x] :
+          u \in {"UallL", "UallP", "UallM", "Utype3", "Utype4", "Utype5", "Utype6", "Utype7", "Utype8"},
+          x \in {{}, {Ann("dev", "ctr", "c1", "D1")}}}
 
 \* one annotation per (key, scope, addressee): they are keys of one map
 Distinct(anns) == \A a, b \in anns : (a.key = b.key /\ a.scope = b.scope /\ a.name = b.name) => a = b
